@@ -139,7 +139,12 @@ class Scn:
         return SBytes((sb.BlobSeg(blob, a, b),))
 
     def sym(self, name, width=64, lo=None, hi=None):
+        shared = getattr(self, "shared_syms", None)
+        if shared is not None and name in shared:
+            return shared[name]
         v = self.w.fresh_bv(name, width)
+        if shared is not None:
+            shared[name] = v
         if lo is not None:
             self.w.assume(z3.UGE(v, sb._bv(lo) if width == 64 else z3.BitVecVal(lo, width)))
         if hi is not None:
@@ -616,6 +621,18 @@ class Concretiser:
                 if v is not None and z3.is_true(self.m.eval(v, model_completion=True)):
                     self.blob_bytes[id(b)] = self.blob_bytes[id(other)]
                     return self.blob_bytes[id(b)]
+            # a blob the model makes equal to concrete bytes (abstract equality decided true) takes those bytes
+            for name, (var, c1, c2) in sb.EQ_PAIRS.items():
+                try:
+                    if not z3.is_true(self.m.eval(var, model_completion=True)):
+                        continue
+                except z3.Z3Exception:
+                    continue
+                for x, y in ((c1, c2), (c2, c1)):
+                    if len(x.segs) == 1 and isinstance(x.segs[0], sb.BlobSeg) and x.segs[0].blob is b and y.is_concrete() \
+                            and self.ev(x.segs[0].a) == 0 and self.ev(x.segs[0].b) == self.ev(b.len):
+                        self.blob_bytes[id(b)] = y.concrete()
+                        return self.blob_bytes[id(b)]
             n = self.ev(b.len)
             if n > (64 << 20):
                 raise Unreplayable("blob %s of %d bytes" % (b.name, n))
@@ -669,8 +686,10 @@ class Concretiser:
         if len(s.segs) == 1 and isinstance(s.segs[0], sb.BlobSeg):
             seg = s.segs[0]
             n = self.ev(seg.blob.len)
-            self.blob(seg.blob)
-            return {"gen": seg.blob.seed, "len": n, "a": self.ev(seg.a), "b": self.ev(seg.b)}
+            bb = self.blob(seg.blob)
+            if len(bb) == n and bb == gen_bytes(seg.blob.seed, n):
+                return {"gen": seg.blob.seed, "len": n, "a": self.ev(seg.a), "b": self.ev(seg.b)}
+            return {"hex": bb[self.ev(seg.a):self.ev(seg.b)].hex()}
         return {"hex": self.bytes_of(s).hex()}
 
     def sri_spec(self, v):
